@@ -3,6 +3,7 @@
 mod cases;
 mod coqfmt;
 mod dynop;
+mod pipe;
 mod props;
 mod rng;
 mod script;
@@ -129,6 +130,11 @@ fn main() {
             let mut sink = cases::CaseSink::new("C09", "Model.End Corr.LinkCorr Corr.BinCorr Model.BinaryStart Corr.C09", &opts.out, 100);
             props::c09::generate(&opts, &mut sink);
             sink.finish(props::c09::RULE, serde_json::json!({}));
+        }
+        "C01" => {
+            let mut sink = cases::CaseSink::new("C01", "Model.Pipe Corr.C01", &opts.out, 40);
+            props::c01::generate(&opts, &mut sink);
+            sink.finish(props::c01::RULE, serde_json::json!({}));
         }
         p => {
             eprintln!("unknown property {p}");
